@@ -12,6 +12,7 @@
 # See the License for the specific language governing permissions and
 # limitations under the License.
 
+import itertools
 from sys import stderr, stdout
 import time
 import threading
@@ -31,6 +32,8 @@ assert str(__name__).endswith("asynq.scheduler") or str(__name__).endswith(
 ), "Are you importing asynq from the wrong directory?"
 
 _debug_options = _debug.options
+# numbers for the traversals of TaskScheduler._execute, unique across schedulers and threads
+_traversal_numbers = itertools.count(1)
 _futures_none = futures._none
 
 
@@ -56,6 +59,7 @@ class TaskScheduler(object):
         self.reset()
 
     def reset(self):
+        self._pass = 0
         self._batches = set()
         self._tasks = []
         self.active_task = None
@@ -94,6 +98,10 @@ class TaskScheduler(object):
         """
         init_num_tasks = len(self._tasks)
         self._tasks.append(root_task)
+        # every traversal gets a number of its own (see _handle_async_task); it changes again
+        # when the traversal ends, so that an enclosing traversal which is resumed after a
+        # nested one does not trust what it had found out before
+        self._pass = next(_traversal_numbers)
 
         # Run the execution loop until the root_task is complete (it's either blocked on batch
         # items waiting to be flushed, or computed).
@@ -136,6 +144,7 @@ class TaskScheduler(object):
                 # stack limit, which resets the stack)
                 if self._tasks and self._tasks[-1] is task:
                     self._tasks.pop()
+        self._pass = next(_traversal_numbers)
 
     def _schedule_batch(self, batch):
         if batch.is_flushed():
@@ -177,7 +186,14 @@ class TaskScheduler(object):
                 if _debug_options.DUMP_CONTINUE_TASK:
                     debug.write("@async: skipping %s" % debug.str(task))
                 task._dependencies_scheduled = False
+                task._blocked_in_pass = self._pass
                 task._pause_contexts()
+                self._tasks.pop()
+            # A task that several others await is reached once per awaiting task. If this
+            # traversal has already walked its subtree and found it waiting for batch items
+            # (and no other traversal ran in between), walking it again finds nothing new -
+            # and would take time exponential in the depth of a DAG of shared tasks.
+            elif task._blocked_in_pass == self._pass:
                 self._tasks.pop()
             # If the task is blocked and we haven't scheduled its dependencies, we
             # should do so now.
@@ -225,6 +241,7 @@ class TaskScheduler(object):
         # We get a new set of dependencies when we run _continue, so these haven't
         # been scheduled.
         task._dependencies_scheduled = False
+        task._blocked_in_pass = 0
 
     def _continue_with_batch(self):
         """
